@@ -164,8 +164,8 @@ Proof.
     + intros y Hy. apply fold_left_set_union_In in Hy. apply in_or_app. destruct Hy as [Hy | Hy]; auto.
 Qed.
 
-(* C16: for every history of write operations from any contents (whose elements are recorded), the trace of contents
-   and IndexErrors is the one of a plain Python list / set, and every element of the field is recorded *)
+(* C16: for every history of write operations, from any contents whose elements are recorded, the trace of
+   contents and IndexErrors is the one of a plain Python list / set, and every element (identity) of the field is recorded *)
 Theorem writes_ok k : forall ops s, wf k (items s) -> incl (items s) (rec s) ->
   fst (run k ops s) = fst (py_run k ops (items s)) /\
   items (snd (run k ops s)) = snd (py_run k ops (items s)) /\
@@ -218,3 +218,11 @@ Proof.
   - intros y Hy. exact Hy.
   - simpl. split; [right; now left|]. intros [H | []]. discriminate.
 Qed.
+
+(* regression (before b78c5e4): x.f[0:0] = [t2, t3] with t2 == t3 distinct objects of one ==-class: the old recording kept only
+   t2; the current step records both *)
+Lemma old_slice_twins_lost :
+  let cls := fun x => if Nat.eqb x 3 then 2 else x in
+  rec (setslice_whole_old cls 0 0 [2; 3] (init KList [])) = [2]
+  /\ rec (fst (step KList (SetSlice 0 0 [2; 3]) (init KList []))) = [2; 3].
+Proof. split; vm_compute; reflexivity. Qed.
